@@ -481,3 +481,45 @@ package ice
 //@   ensures[C04,C10] result1 == nil ==> result0.fieldsIndexOffset == be64(B, N - 28)
 //@   ensures[C04,C10] result1 == nil ==> result0.storedIndexOffset == be64(B, N - 36)
 //@   ensures[C04,C10] result1 == nil ==> result0.numDocs == be64(B, N - 44)
+//@
+//@ // ---------------------------------------------------------------------------
+//@ // C01: what the builder records for a location is what the input location says
+//@ spec isLoc(x int) bool = x != 0 && dyntype(x) == typetag("*Location")
+//@ func (*Location).Field
+//@   requires l != nil
+//@   pure
+//@   ensures[C01] result0 == l.field
+//@ func (*Location).Start
+//@   requires l != nil
+//@   pure
+//@   ensures[C01] result0 == l.start
+//@ func (*Location).End
+//@   requires l != nil
+//@   pure
+//@   ensures[C01] result0 == l.end
+//@ func (*Location).Pos
+//@   requires l != nil
+//@   pure
+//@   ensures[C01] result0 == l.pos
+//@
+//@ // location callback for a term seen for the first time in this field of this document
+//@ func (*interim).processDocument$1$1$2
+//@   requires[C01] newTf != nil && location != nil
+//@   let n = len(newTf.Locations)
+//@   let last = newTf.Locations[n - 1]
+//@   ensures[C01] n == old(len(newTf.Locations)) + 1 && last != nil
+//@   ensures[C01] @location_field last.FieldVal == ite(isLoc(location), cast(location, "*Location").field, locField(location))
+//@   ensures[C01] @location_span last.StartVal == ite(isLoc(location), cast(location, "*Location").start, locStart(location)) && last.EndVal == ite(isLoc(location), cast(location, "*Location").end, locEnd(location)) && last.PositionVal == ite(isLoc(location), cast(location, "*Location").pos, locPos(location))
+//@
+//@ // location callback for a term the document already has in this field (repeated field)
+//@ func (*interim).processDocument$1$1$1
+//@   requires[C01] existingTf != nil && location != nil
+//@   let n = len(existingTf.Locations)
+//@   let last = existingTf.Locations[n - 1]
+//@   ensures[C01] n == old(len(existingTf.Locations)) + 1 && last != nil
+//@   ensures[C01] @location_field last.FieldVal == ite(isLoc(location), cast(location, "*Location").field, locField(location))
+//@   ensures[C01] @location_span last.StartVal == ite(isLoc(location), cast(location, "*Location").start, locStart(location)) && last.EndVal == ite(isLoc(location), cast(location, "*Location").end, locEnd(location)) && last.PositionVal == ite(isLoc(location), cast(location, "*Location").pos, locPos(location))
+//@
+//@ func totalUvarintBytes
+//@   safety[C01] wrap
+//@   ensures[C01,C02,C10] n == uvlen(a) + uvlen(b) + uvlen(c) + uvlen(d)
